@@ -486,19 +486,19 @@ def gen_cases(ctx):
     cases = [("corpus", t) for t in CORPUS]
     # every escape form on its own, followed by each of a few characters, alone and split over two literals
     for e in ESCAPES + BAD_ESCAPES:
-        for f in (b"", b"0", b"7", b"8", b"a", b"g", b"+"):
+        for f in ((b"", b"0", b"7", b"8", b"a", b"g", b"+") if e in ESCAPES else (b"", b"0", b"g")):
             cases.append(("escape-grid", b"import \"" + e + f + b"\";"))
         cases.append(("escape-grid", b"import 'p" + e + b"' \"" + e + b"q\";"))
-    n_acc = ctx.budget(600, 20000)
+    n_acc = ctx.budget(500, 6000)
     for i in range(n_acc):
         cases.append(("generated", gen_accepted_text(rng, calm=(i % 5 == 0))))
     # generated files with one malformed escape in an import path: the full parser rejects, the scanner must survive
-    for i in range(ctx.budget(80, 2000)):
+    for i in range(ctx.budget(60, 600)):
         cases.append(("bad-escape", join_tokens(rng, gen_file_tokens(rng, bad_escape=True), calm=(i % 2 == 0))))
     td = testdata_texts()
     for t in td:
         cases.append(("testdata", t))
-    for i in range(ctx.budget(250, 8000)):
+    for i in range(ctx.budget(200, 2500)):
         if td and rng.chance(1, 2):
             base = rng.choice(td)
             if len(base) > 1500:            # a window of a big file, cut at line starts
@@ -582,9 +582,15 @@ def run(ctx):
     for k in (1, len(CORPUS) + 3, len(CORPUS) + 4):
         if k < len(cases):
             ctx.sample({"class": cases[k][0], "source": cases[k][1].decode("latin-1")[:400]})
-    mism, err = coq_eval_mismatches("cases_C25", HEADER, terms, "fs_chk", shard_size=ctx.budget(80, 400))
+    # balanced shards: the cases come in order of increasing size (corpus, grid, generated, mutants), so deal them out
+    # round-robin; one shard per core in the quick tier
+    n = len(terms)
+    nshards = max(1, min(NCPU, n // 20)) if ctx.tier != "thorough" else max(1, n // 400)
+    order = sorted(range(n), key=lambda i: i % nshards)
+    size = (n + nshards - 1) // nshards
+    mism, err = coq_eval_mismatches("cases_C25", HEADER, [terms[i] for i in order], "fs_chk", shard_size=max(size, 1))
     if err:
         raise RuntimeError(err)
     for k in mism:
-        replay, o = meta[k]
+        replay, o = meta[order[k]]
         ctx.corr_break("fast_scan(model) vs fastscan.Scan + VerifTokens", replay, {"observed": {"scan": o["scan"], "toks": o.get("toks")}})
